@@ -37,22 +37,23 @@ static const char *iname[NI] = { "A", "B", "G" };
 #define NONE 2   /* third choice of the alpha-map argument: NULL */
 
 /* ---- operations ---- */
-enum { OP_PROBE = 0, OP_REF = 1, OP_UNREF = OP_REF + NI, OP_ALPHA = OP_UNREF + NI, OP_XFORM = OP_ALPHA + 3 * NI, OP_FILTER = OP_XFORM + 3 * NI,
-       OP_CLIP = OP_FILTER + 3 * NI, OP_DFN = OP_CLIP + 3 * NI, OP_GINS = OP_DFN + 3 * NI, OP_GREM = OP_GINS + 2, OP_USE = OP_GREM + 2, C20_NOPS = OP_USE + NI };
+#define NV 4     /* values per property setter */
+enum { OP_PROBE = 0, OP_REF = 1, OP_UNREF = OP_REF + NI, OP_ALPHA = OP_UNREF + NI, OP_XFORM = OP_ALPHA + 3 * NI, OP_FILTER = OP_XFORM + NV * NI,
+       OP_CLIP = OP_FILTER + NV * NI, OP_DFN = OP_CLIP + NV * NI, OP_GINS = OP_DFN + NV * NI, OP_GREM = OP_GINS + 2, OP_USE = OP_GREM + 2, C20_NOPS = OP_USE + NI };
 
 static const char *op_str(int op, char *buf, size_t cap)
 {
     static const char *an[3] = { "A", "B", "NULL" };
-    static const char *xv[3] = { "scale2", "rot90+translate", "identity" }, *fv[3] = { "conv1x1", "conv3x1/2phases", "nearest,NULL" },
-                      *cv[3] = { "one-rect", "three-rects", "NULL" }, *dv[3] = { "cbA", "cbB", "NULL" };
+    static const char *xv[NV] = { "scale2", "rot90+translate", "identity", "translate(.5,0)" }, *fv[NV] = { "conv1x1", "conv3x1/2phases", "nearest,NULL", "nearest,non-NULL pointer,0 parameters" },
+                      *cv[NV] = { "one-rect", "three-rects", "NULL", "empty region" }, *dv[NV] = { "cbA", "cbB", "NULL", "cbB(again)" };
     if (op == OP_PROBE) snprintf(buf, cap, "release-all");
     else if (op < OP_UNREF) snprintf(buf, cap, "ref(%s)", iname[op - OP_REF]);
     else if (op < OP_ALPHA) snprintf(buf, cap, "unref(%s)", iname[op - OP_UNREF]);
     else if (op < OP_XFORM) snprintf(buf, cap, "set_alpha_map(%s,%s)", iname[(op - OP_ALPHA) / 3], an[(op - OP_ALPHA) % 3]);
-    else if (op < OP_FILTER) snprintf(buf, cap, "set_transform(%s,%s)", iname[(op - OP_XFORM) / 3], xv[(op - OP_XFORM) % 3]);
-    else if (op < OP_CLIP) snprintf(buf, cap, "set_filter(%s,%s)", iname[(op - OP_FILTER) / 3], fv[(op - OP_FILTER) % 3]);
-    else if (op < OP_DFN) snprintf(buf, cap, "set_clip_region32(%s,%s)", iname[(op - OP_CLIP) / 3], cv[(op - OP_CLIP) % 3]);
-    else if (op < OP_GINS) snprintf(buf, cap, "set_destroy_function(%s,%s)", iname[(op - OP_DFN) / 3], dv[(op - OP_DFN) % 3]);
+    else if (op < OP_FILTER) snprintf(buf, cap, "set_transform(%s,%s)", iname[(op - OP_XFORM) / NV], xv[(op - OP_XFORM) % NV]);
+    else if (op < OP_CLIP) snprintf(buf, cap, "set_filter(%s,%s)", iname[(op - OP_FILTER) / NV], fv[(op - OP_FILTER) % NV]);
+    else if (op < OP_DFN) snprintf(buf, cap, "set_clip_region32(%s,%s)", iname[(op - OP_CLIP) / NV], cv[(op - OP_CLIP) % NV]);
+    else if (op < OP_GINS) snprintf(buf, cap, "set_destroy_function(%s,%s)", iname[(op - OP_DFN) / NV], dv[(op - OP_DFN) % NV]);
     else if (op < OP_GREM) snprintf(buf, cap, "glyph_insert(%s)", iname[op - OP_GINS]);
     else if (op < OP_USE) snprintf(buf, cap, "glyph_remove(key%s)", iname[op - OP_GREM]);
     else snprintf(buf, cap, "draw_from(%s)", iname[op - OP_USE]);
@@ -174,6 +175,8 @@ static uint64_t pool_canon(pool_t *p)
         /* [white-box] the image's clip owns a heap rectangle array (multi-rectangle clip): a one-rectangle and a three-rectangle
          * clip do not have the same futures as far as heap ownership goes, so they must not be merged */
         if (x->alive && p->img[i]->common.have_clip_region && p->img[i]->common.clip_region.data && p->img[i]->common.clip_region.data->size) v |= (uint64_t)1 << (56 + i);
+        /* [white-box] likewise a parameter block of length 0 (a pointer was given with n_params = 0) is not the same state as a filled block */
+        if (x->alive && p->img[i]->common.filter_params && p->img[i]->common.n_filter_params == 0) v |= (uint64_t)1 << (59 + i);
     }
     v |= (uint64_t)p->m.gkey[0] << 54 | (uint64_t)p->m.gkey[1] << 55;
     return v;
@@ -190,7 +193,8 @@ static const char *canon_str(uint64_t v, char *buf, size_t cap)
                       am == 0 ? "-" : iname[am - 1], (w >> 10 & 1) ? 'T' : '-', (w >> 11 & 1) ? 'F' : '-', (w >> 12 & 1) ? 'C' : '-', (int)(w >> 16 & 3));
     }
     l += snprintf(buf + l, cap - l, "glyphs=%s%s", (v >> 54 & 1) ? "A" : "", (v >> 55 & 1) ? "B" : "");
-    if (v >> 56 & 7) snprintf(buf + l, cap - l, " multi-rect-clip=%s%s%s", (v >> 56 & 1) ? "A" : "", (v >> 57 & 1) ? "B" : "", (v >> 58 & 1) ? "G" : "");
+    if (v >> 56 & 7) l += snprintf(buf + l, cap - l, " multi-rect-clip=%s%s%s", (v >> 56 & 1) ? "A" : "", (v >> 57 & 1) ? "B" : "", (v >> 58 & 1) ? "G" : "");
+    if (v >> 59 & 7) snprintf(buf + l, cap - l, " empty-filter-block=%s%s%s", (v >> 59 & 1) ? "A" : "", (v >> 60 & 1) ? "B" : "", (v >> 61 & 1) ? "G" : "");
     return buf;
 }
 
@@ -226,6 +230,7 @@ static void judge_destruction(pool_t *p, const int before[2][NI], const char *de
 
 static const pixman_transform_t xf_scale2 = { { { 2 * 65536, 0, 0 }, { 0, 2 * 65536, 0 }, { 0, 0, 65536 } } };
 static const pixman_transform_t xf_rot = { { { 0, -65536, 3 * 65536 }, { 65536, 0, 0 }, { 0, 0, 65536 } } };
+static const pixman_transform_t xf_half = { { { 65536, 0, 32768 }, { 0, 65536, 0 }, { 0, 0, 65536 } } };
 static const pixman_transform_t xf_id = { { { 65536, 0, 0 }, { 0, 65536, 0 }, { 0, 0, 65536 } } };
 static const pixman_fixed_t flt1[6] = { 65536, 65536, 0, 0, 65536, 65536 };
 static const pixman_fixed_t flt2[11] = { 3 * 65536, 65536, 65536, 0, 16384, 32768, 16384, 0, 32768, 32768, 65536 };
@@ -281,26 +286,28 @@ static int apply(pool_t *p, int op, const char *desc)
         return 1;
     }
     if (op < OP_GINS) {
-        int grp = (op - OP_XFORM) / (3 * NI), i = (op - OP_XFORM) % (3 * NI) / 3, v = (op - OP_XFORM) % 3;
+        int grp = (op - OP_XFORM) / (NV * NI), i = (op - OP_XFORM) % (NV * NI) / NV, v = (op - OP_XFORM) % NV;
         if (m->im[i].crefs < 1) return 0;
         int *bit = grp == 0 ? &m->im[i].T : grp == 1 ? &m->im[i].F : grp == 2 ? &m->im[i].C : &m->im[i].D;
-        int newv = grp == 3 ? (v == 0 ? 0 : v == 1 ? 1 : 2) : (v != 2);
+        int newv = grp == 3 ? (v == 0 ? 0 : v == 2 ? 2 : 1) : (v != 2);
         int cost_old = *bit != 0, cost_new = newv != 0;
         if (props_total(m) - cost_old + cost_new > p->max_props) return 0;   /* bound: at most max_props non-default properties in the pool */
         int ret = 1;
-        if (grp == 0) ret = pixman_image_set_transform(p->img[i], v == 0 ? &xf_scale2 : v == 1 ? &xf_rot : &xf_id);
+        if (grp == 0) ret = pixman_image_set_transform(p->img[i], v == 0 ? &xf_scale2 : v == 1 ? &xf_rot : v == 2 ? &xf_id : &xf_half);
         else if (grp == 1) ret = v == 2 ? pixman_image_set_filter(p->img[i], PIXMAN_FILTER_NEAREST, NULL, 0)
+                                   : v == 3 ? pixman_image_set_filter(p->img[i], PIXMAN_FILTER_NEAREST, flt1, 0)      /* a pointer with a length of 0: legal, the image may keep an (empty) block */
                                    : pixman_image_set_filter(p->img[i], PIXMAN_FILTER_SEPARABLE_CONVOLUTION, v == 0 ? flt1 : flt2, v == 0 ? 6 : 11);
         else if (grp == 2) {
             if (v == 2) ret = pixman_image_set_clip_region32(p->img[i], NULL);
             else {
                 pixman_region32_t r;
                 if (v == 0) pixman_region32_init_rect(&r, 0, 0, 3, 3);
+                else if (v == 3) pixman_region32_init(&r);
                 else { pixman_box32_t b[3] = { { 0, 0, 2, 1 }, { 3, 0, 4, 1 }, { 1, 2, 4, 4 } }; pixman_region32_init_rects(&r, b, 3); }
                 ret = pixman_image_set_clip_region32(p->img[i], &r);
                 pixman_region32_fini(&r);
             }
-        } else pixman_image_set_destroy_function(p->img[i], v == 0 ? destroy_cb_a : v == 1 ? destroy_cb_b : NULL, v == 2 ? NULL : (void *)&cb_data[v][i]);
+        } else pixman_image_set_destroy_function(p->img[i], v == 0 ? destroy_cb_a : v == 2 ? NULL : destroy_cb_b, v == 2 ? NULL : (void *)&cb_data[v == 0 ? 0 : 1][i]);
         *bit = newv;
         if (!ret) vf_violation("c20-setter-failed", "%s: %s returned FALSE (no allocation failure is injected here)", desc, what);
         judge_destruction(p, before, desc, what, 0, 0, 0);
@@ -380,10 +387,10 @@ static int op_enabled(uint64_t canon, int op)
     if (op < OP_ALPHA) return crefs[op - OP_UNREF] >= 1;
     if (op < OP_XFORM) { int i = (op - OP_ALPHA) / 3, j = (op - OP_ALPHA) % 3; return crefs[i] >= 1 && (j == NONE || crefs[j] >= 1); }
     if (op < OP_GINS) {
-        int grp = (op - OP_XFORM) / (3 * NI), i = (op - OP_XFORM) % (3 * NI) / 3, v = (op - OP_XFORM) % 3;
+        int grp = (op - OP_XFORM) / (NV * NI), i = (op - OP_XFORM) % (NV * NI) / NV, v = (op - OP_XFORM) % NV;
         if (crefs[i] < 1) return 0;
         int cur = grp == 0 ? T[i] : grp == 1 ? F[i] : grp == 2 ? C[i] : D[i];
-        int newv = grp == 3 ? v : (v != 2);
+        int newv = grp == 3 ? (v == 3 ? 1 : v) : (v != 2);
         return total - (cur != 0) + (newv != 0) <= max_props_bound;
     }
     if (op < OP_GREM) { int i = op - OP_GINS; return crefs[i] >= 1 && !gk[i]; }
